@@ -22,3 +22,38 @@ Definition subclass_as_modelled (classes : list cls) (t : list (cls * list cls))
 Definition all_registered (order : list rule_id) : bool :=
   forallb (fun r => existsb (rule_eqb r) order) default_order
   && forallb (fun r => Nat.eqb (List.length (filter (rule_eqb r) order)) 1) order.
+
+(* ---------- AbstractBinaryRule.check: the primitives the translated body (Gen/Tables.v gen_generic_check) is
+   written in, and the lemmas relating them to Model/Algebra.v guard_ok ---------- *)
+Section CheckPrims.
+  Variable K : Type.
+  Variable keqb : K -> K -> bool.
+  (* self.<attr> is not None *)
+  Definition attr_set (a : option (list cls)) : bool := match a with Some _ => true | None => false end.
+  (* self.<attr> is <class>: the attribute is that very class (not a tuple, not a subclass) *)
+  Definition attr_is (a : option (list cls)) (c : cls) : bool :=
+    match a with Some [c'] => cls_eqb c' c | _ => false end.
+  (* isinstance(e, self.<attr>); the translator refuses an occurrence where the attribute may be None *)
+  Definition py_isinstance (e : op K) (a : option (list cls)) : bool :=
+    match a with Some cs => is_a e cs | None => false end.
+  (* w.operator is x; the translator refuses an occurrence not guarded by "the class attribute of w's side is a lazy
+     wrapper class" *)
+  Definition operator_is (w x : op K) : bool :=
+    match wrapped w with Some y => same keqb y x | None => false end.
+
+  Lemma attr_is_transpose : forall a, attr_is a CTranspose = is_exactly_transpose a.
+  Proof.
+    intros [[|c [|c' l]]|]; simpl; try reflexivity; destruct c; reflexivity.
+  Qed.
+End CheckPrims.
+Arguments py_isinstance {K} e a.
+Arguments operator_is {K} keqb w x.
+
+(* which class defines the check() a registered rule resolves to, as the model assumes: every rule goes through the
+   generic check; InverseBinaryRule adds its identity test (modelled in apply_rule RInverse) *)
+Definition modelled_check_owner (r : rule_id) : string :=
+  match r with RInverse => "InverseBinaryRule"%string | _ => "AbstractBinaryRule"%string end.
+Definition check_owners_as_modelled (t : list (rule_id * string)) : bool :=
+  forallb (fun p => String.eqb (snd p) (modelled_check_owner (fst p))) t.
+(* InverseBinaryRule.check as it was when apply_rule RInverse was written (tools/translate/tables.py normalised_source) *)
+Definition pinned_inverse_check_src : string := "def check(self, left, right): Expr(Call(Attribute(Call(Name('super', Load()), [], []), 'check', Load()), [Name('left', Load()), Name('right', Load())], [])); If(Call(Name('isinstance', Load()), [Name('left', Load()), Attribute(Name('self', Load()), 'operator_class', Load())], []), [If(Compare(Attribute(Name('left', Load()), 'operator', Load()), [IsNot()], [Name('right', Load())]), [Raise(Name('NoReduction', Load()))], [])], [Assert(Call(Name('isinstance', Load()), [Name('right', Load()), Attribute(Name('self', Load()), 'operator_class', Load())], [])), If(Compare(Attribute(Name('right', Load()), 'operator', Load()), [IsNot()], [Name('left', Load())]), [Raise(Name('NoReduction', Load()))], [])])"%string.
